@@ -3,6 +3,7 @@ package wire
 import (
 	"bytes"
 	"context"
+	"encoding/binary"
 	"errors"
 	"fmt"
 	"io"
@@ -127,6 +128,81 @@ type BinaryCopyReader struct {
 	typeMap  *pgtype.Map
 	reader   *CopyReader
 	scanners []Scanner
+	buffer   []byte // received but not yet consumed bytes of the copy-in stream
+	started  bool   // the (optional) file header has been handled
+	done     bool   // the end of the copy-in stream has been reached
+}
+
+// need makes sure that at least n bytes of the copy-in stream are buffered. The
+// binary copy-in stream is a byte stream, rows (or the file header) could be
+// split over multiple CopyData messages at arbitrary positions. io.EOF is
+// returned if the stream has ended and nothing is buffered, and
+// io.ErrUnexpectedEOF if the stream ends in the middle of the requested bytes.
+func (r *BinaryCopyReader) need(n int) error {
+	for len(r.buffer) < n {
+		err := r.reader.Read()
+		if err == io.EOF {
+			r.done = true
+			if len(r.buffer) == 0 {
+				return io.EOF
+			}
+
+			return io.ErrUnexpectedEOF
+		}
+
+		if err != nil {
+			return err
+		}
+
+		r.buffer = append(r.buffer, r.reader.Msg...)
+		r.reader.Msg = r.reader.Msg[len(r.reader.Msg):]
+	}
+
+	return nil
+}
+
+// take consumes the first n buffered bytes.
+func (r *BinaryCopyReader) take(n int) []byte {
+	value := r.buffer[:n:n]
+	r.buffer = r.buffer[n:]
+	return value
+}
+
+// header consumes the (optional) binary file header: the signature, the flags
+// field and the header extension area.
+func (r *BinaryCopyReader) header() error {
+	r.started = true
+
+	err := r.need(len(CopySignature))
+	if err == io.ErrUnexpectedEOF {
+		// NOTE: the stream is shorter than a signature, no header has been sent.
+		return nil
+	}
+
+	if err != nil {
+		return err
+	}
+
+	if !bytes.HasPrefix(r.buffer, CopySignature) {
+		return nil
+	}
+
+	// NOTE: a 32-bit flags field and the 32-bit length of the header extension
+	// area are send after the signature, the extension area is skipped.
+	err = r.need(len(CopySignature) + 8)
+	if err != nil {
+		return fmt.Errorf("unexpected header: %w", err)
+	}
+
+	r.take(len(CopySignature) + 4)
+	extension := binary.BigEndian.Uint32(r.take(4))
+	err = r.need(int(extension))
+	if err != nil {
+		return fmt.Errorf("unexpected header extension: %w", err)
+	}
+
+	r.take(int(extension))
+	return nil
 }
 
 // Read reads a single row from the copy-in stream. The read row is returned as a
@@ -137,56 +213,66 @@ func (r *BinaryCopyReader) Read(ctx context.Context) (_ []any, err error) {
 		return nil, ctx.Err()
 	}
 
-	// NOTE: read the next chunk from the copy-in stream if the current chunk is empty.
-	if len(r.reader.Msg) == 0 {
-		err = r.reader.Read()
+	if r.done {
+		return nil, io.EOF
+	}
+
+	if !r.started {
+		err = r.header()
 		if err != nil {
 			return nil, err
 		}
-
-		has := bytes.HasPrefix(r.reader.Msg, CopySignature)
-		if has {
-			_, err = r.reader.GetBytes(len(CopySignature))
-			if err != nil {
-				return nil, err
-			}
-
-			// NOTE: 2 x 32-bit integer fields are send after the signature which we ignore for now.
-			_, err = r.reader.GetBytes(8)
-			if err != nil {
-				return nil, err
-			}
-		}
 	}
 
-	fields, err := r.reader.GetUint16()
+	err = r.need(2)
 	if err != nil {
 		return nil, err
 	}
 
+	// NOTE: the file trailer consists of a 16-bit integer word containing -1.
+	fields := binary.BigEndian.Uint16(r.take(2))
+	if fields == math.MaxUint16 {
+		r.done = true
+		return nil, io.EOF
+	}
+
+	if int(fields) != len(r.scanners) {
+		return nil, fmt.Errorf("unexpected number of fields, %d columns are defined but %d fields were given", len(r.scanners), fields)
+	}
+
 	row := make([]any, fields)
-	for index := range fields {
-		length, err := r.reader.GetUint32()
+	for index := range row {
+		err = r.need(4)
 		if err != nil {
-			return nil, fmt.Errorf("unexpected field length: %w", err)
+			return nil, fmt.Errorf("unexpected field length: %w", unexpectedEOF(err))
 		}
 
 		// NOTE: as a special case, -1 (or 255 255 255 255) indicates a NULL field value.
+		length := binary.BigEndian.Uint32(r.take(4))
 		if length == math.MaxUint32 {
-			// r.row[index] = nil
 			continue
 		}
 
-		value, err := r.reader.GetBytes(int(length))
+		err = r.need(int(length))
 		if err != nil {
-			return nil, fmt.Errorf("unexpected value: %w", err)
+			return nil, fmt.Errorf("unexpected value: %w", unexpectedEOF(err))
 		}
 
-		row[index], err = r.scanners[index](value)
+		row[index], err = r.scanners[index](r.take(int(length)))
 		if err != nil {
 			return nil, err
 		}
 	}
 
 	return row, nil
+}
+
+// unexpectedEOF makes sure that the end of the stream in the middle of a row
+// is never reported as a regular end of the stream.
+func unexpectedEOF(err error) error {
+	if err == io.EOF {
+		return io.ErrUnexpectedEOF
+	}
+
+	return err
 }
